@@ -98,8 +98,8 @@ CHECKS = {
             "'the same program' = equal Go token streams after gofmt on both sides: comments, semicolons and trailing commas dropped, templ.Error Line/Col masked; nothing else is masked",
             "whitespace mutations are applied to template bodies only (not to the package clause / imports) and only spellings that templ generate still accepts are judged",
         ],
-        "quick": {"rapid_checks": 4000, "timeout": 900},
-        "thorough": {"rapid_checks": 60000, "timeout": 3400, "shards": 16},
+        "quick": {"timeout": 900, "runs": [{"run": "^TestProp(Seeds|OneLiners|Generated|WhitespaceMutations)$", "rapid_checks": 4000}, {"run": "^TestPropFmtCmd$", "rapid_checks": 600}]},
+        "thorough": {"timeout": 3400, "shards": 16, "runs": [{"run": "^TestProp(Seeds|OneLiners|Generated|WhitespaceMutations)$", "rapid_checks": 60000}, {"run": "^TestPropFmtCmd$", "rapid_checks": 6000}]},
     },
     "C09": {
         "pkg": "./checks/c09",
